@@ -657,7 +657,25 @@ func (c *genCtx) trap(depth int, nn bool) *Expr {
 	if c.o.Parseables && c.draw(0, 13, "rewindcommit") == 0 {
 		kind = 17
 	}
+	if c.draw(0, 13, "sliceorder") == 0 {
+		kind = 18
+	}
 	switch kind {
+	case 18:
+		// one slice field written before a group and several times inside it: the elements stay in input order
+		// however many captures the accepted attempt hands to its parent:  @a ( @b @c @b )? @a*
+		if sp := c.subProd(true, depth); sp != nil && sp.Kind == KSub && sp.Uni < 0 && c.draw(0, 1, "sliceordernodes") == 0 {
+			// ... the same with nested nodes:  @@ ( ";" @@ @@ )? @@*
+			ref := func(h string) *Expr { r := SubP(sp.Prod); r.T = h; return r }
+			g := Group(rapid.SampledFrom([]string{"?", "*", "?"}).Draw(c.t, "sliceordermod"), Seq(Lit(";"), ref("subs+"), ref("subs+")))
+			g.Style = c.draw(0, 5, "gstyle")
+			return Seq(ref("subs"), g, Group("*", ref("subs+")))
+		}
+		hint := func(e *Expr, h string) *Expr { cp := Cap(e); cp.T = h; return cp }
+		a, b, cc := c.leaf(), c.leaf(), c.leaf()
+		g := Group(rapid.SampledFrom([]string{"?", "*", "?"}).Draw(c.t, "sliceordermod"), Seq(hint(b, "strs+"), hint(cc, "strs+"), hint(clone(b), "strs+")))
+		g.Style = c.draw(0, 5, "gstyle")
+		return Seq(hint(a, "strs"), g, Group("*", hint(clone(a), "strs+")))
 	case 17:
 		// not at the start of the input: an alternative that begins with a user production which looks at a token and
 		// rewinds (MakeCheckpoint / LoadCheckpoint), then commits inside an optional group that fails three tokens in,
@@ -891,6 +909,9 @@ func assignFields(t *rapid.T, p *Prod, e *Expr, pi int) {
 			if e.T == "tok" {
 				kinds = []FKind{FTok, FToks, FTok} // the shape is about which tokens the capture covers
 			}
+			if e.T == "strs" || e.T == "strs+" {
+				kinds = []FKind{FStrs} // the shape is about the order of the elements of one slice
+			}
 			k := rapid.SampledFrom(kinds).Draw(t, "fk")
 			n := len(p.Fields)
 			if n > 0 && rapid.IntRange(0, 3).Draw(t, "samekind") == 0 {
@@ -901,7 +922,7 @@ func assignFields(t *rapid.T, p *Prod, e *Expr, pi int) {
 					}
 				}
 			}
-			if n > 0 && p.Fields[n-1].Kind == k && rapid.Bool().Draw(t, "reuse") {
+			if n > 0 && p.Fields[n-1].Kind == k && (e.T == "strs+" || rapid.Bool().Draw(t, "reuse")) {
 				e.Field = n - 1
 			} else {
 				p.Fields = append(p.Fields, Field{Kind: k, Prod: -1, Uni: -1})
@@ -944,8 +965,11 @@ func assignFields(t *rapid.T, p *Prod, e *Expr, pi int) {
 			if e.Prod <= pi {
 				subKinds = []FKind{FSub, FSubs} // (possibly) recursive reference: pointers only
 			}
+			if e.T == "subs" || e.T == "subs+" {
+				subKinds = []FKind{FSubs} // the shape is about the order of the nodes of one slice
+			}
 			k := rapid.SampledFrom(subKinds).Draw(t, "sk")
-			if n > 0 && p.Fields[n-1].Kind == k && p.Fields[n-1].Prod == e.Prod && rapid.Bool().Draw(t, "reuse") {
+			if n > 0 && p.Fields[n-1].Kind == k && p.Fields[n-1].Prod == e.Prod && (e.T == "subs+" || rapid.Bool().Draw(t, "reuse")) {
 				e.Field = n - 1
 			} else {
 				p.Fields = append(p.Fields, Field{Kind: k, Prod: e.Prod, Uni: -1})
